@@ -105,6 +105,50 @@ fn case_inner(sink: &mut Sink, model: &mut Model, key: &KeyInfo, meta: &Metadata
     sink.oracle(same, "signature is not over the reference canonical JSON", &replay);
     sink.oracle(verify_accepts(meta, &key.key, &reference), "signature made over the reference canonical JSON is rejected", &replay);
     sink.stat(&format!("{}/{}", class, if same { "ref-equal" } else { "ref-differs" }));
+    // the third place that signs: `MetablockBuilder::from_raw_metadata(document).sign(..)`. Whatever the
+    // document looks like - indented, with a member the model does not know, without an optional member,
+    // an expiry in another notation - what is signed is the reference encoding of the metadata the block
+    // then carries
+    {
+        let mut docs: Vec<(&str, Value)> = vec![("own", j.clone())];
+        let mut extra = j.clone();
+        if let Some(o) = extra.as_object_mut() {
+            o.insert("x-unknown-member".into(), serde_json::json!({"a": [1, "two"]}));
+            docs.push(("foreign member", extra));
+        }
+        let mut lean = j.clone();
+        if let Some(o) = lean.as_object_mut() {
+            if o.remove("environment").is_some() {
+                docs.push(("without environment", lean));
+            }
+        }
+        let mut zoned = j.clone();
+        if let Some(e) = zoned.get("expires").and_then(|e| e.as_str()).map(String::from) {
+            if let Some(stem) = e.strip_suffix('Z') {
+                zoned["expires"] = Value::String(format!("{}+00:00", stem));
+                docs.push(("expiry with an offset", zoned));
+            }
+        }
+        for (what, doc) in docs {
+            for text in [doc.to_string(), serde_json::to_string_pretty(&doc).unwrap_or_default()] {
+                let k2 = key.reload();
+                let built = guarded(move || MetablockBuilder::from_raw_metadata(text.as_bytes()).and_then(|b| b.sign(&[&k2])).map(|b| b.build()));
+                match built {
+                    Err(()) => sink.oracle(false, "MetablockBuilder::from_raw_metadata / sign panicked", &replay),
+                    Ok(Err(_)) => sink.stat(&format!("raw/{}/rejected", what)),
+                    Ok(Ok(mb)) => {
+                        sink.stat(&format!("raw/{}/signed", what));
+                        let carried = serde_json::to_value(&mb.metadata).ok().and_then(|v| olpc(&v));
+                        let got = mb.signatures.first().map(|s| s.value().as_bytes().to_vec()).unwrap_or_default();
+                        let ok = carried.as_ref().map(|t| sign_bytes(&key.key, t) == got).unwrap_or(false);
+                        sink.oracle(ok, &format!("the signature made through from_raw_metadata ({}) is not over the reference canonical JSON of the metadata the block carries", what), &replay);
+                        let (mb2, pk) = (mb.clone(), key.public().clone());
+                        sink.oracle(guarded(move || mb2.verify(1, [&pk]).is_ok()) == Ok(true), &format!("a block signed through from_raw_metadata ({}) does not verify", what), &replay);
+                    }
+                }
+            }
+        }
+    }
     // ... and nothing else verifies: a signature over any other rendering of the same content (the
     // canonical text with its escape sequences left in place, the same with only the line feed undone,
     // serde_json's compact or indented text, the reference text followed by a line feed) is a signature
